@@ -6,7 +6,7 @@ UNITS = [keys.unlock_unit('C06'), keys.instantiate_key_unit('C06'), keys.init_un
          snapbody.download_snapshot_unit('C06'), snapbody.decrypt_body_unit('C06'), restore.select_unit('C06'), gc.delete_unit('C06'), gc.clean_unit('C06')] + misc.primitive_units('C06') + snapbody.load_units('C06') + keys.make_key_units('C06') + c18.units('C06')[:1]
 from specs import families as _families
 UNITS = _families.with_families('C06', UNITS)
-BOUNDED = [{'name': 'C06.history', 'script': 'bounded/hist.py', 'timeout': 1200, 'args': {'prop': 'C06'}, 'bound': 'random histories of snapshot/delete/clean by owner, shared-key and independent-key users (and one unencrypted user): <= 10 operations, <= 4 paths per snapshot from 6 overlapping contents, chunks 8..64, 5 (thorough: 40) seeded histories per mode, each with one of three object lifetimes (a fresh Repository per command as the CLI does / one per user / ONE object re-unlocked with the key of whoever issues the next command); after every step the view of each user (through the objects of the history itself) shows exactly the snapshots of the key family, with file lists readable only for the snapshots of that user, and deleting a foreign snapshot is refused; a repository with 21 (thorough: 45) snapshots: all are loaded, and a clean by the shared-key user removes nothing any of them references (references read without the loader)'}]
+BOUNDED = [{'name': 'C06.stores', 'script': 'bounded/c13_stores.py', 'timeout': 900, 'bound': 'what delete / clean learn about the repository is a LISTING: the real S3-compatible, B2 and local adapters against in-memory services with pages of 3 names (and a scratch directory), seeded histories of 14 operations per service; every prefix listing is compared with a plain map (same stand-in as C13.stores)'}, {'name': 'C06.history', 'script': 'bounded/hist.py', 'timeout': 1200, 'args': {'prop': 'C06'}, 'bound': 'random histories of snapshot/delete/clean by owner, shared-key and independent-key users (and one unencrypted user): <= 10 operations, <= 4 paths per snapshot from 6 overlapping contents, chunks 8..64, 5 (thorough: 40) seeded histories per mode, each with one of three object lifetimes (a fresh Repository per command as the CLI does / one per user / ONE object re-unlocked with the key of whoever issues the next command); after every step the view of each user (through the objects of the history itself) shows exactly the snapshots of the key family, with file lists readable only for the snapshots of that user, and deleting a foreign snapshot is refused; a repository with 21 (thorough: 45) snapshots: all are loaded, and a clean by the shared-key user removes nothing any of them references (references read without the loader)'}]
 TRUSTED = [
     'vf symbolic executor (/verif/vf): encoding of the Python subset (DESIGN 2.2)',
     'z3 5.1 (API + z3-new CLI), cvc5 1.0.3 (strings)',
